@@ -275,18 +275,18 @@ def photonAccess (f : File) (o : Obj) (c : Color) : Except Err (Obj × Option (I
       else .ok (o1, some (tl, e))
 
 /-- `_get_confocal_data`: the window both streams are cut to -/
-def confocalStop (f : File) (o : Obj) (cw : Option (Int × Int)) : Int :=
+def confocalStop (f : File) (stop : Int) (cw : Option (Int × Int)) : Int :=
   match cw with
-  | none => o.stop
+  | none => stop
   | some (_, ce) =>
-    let iwStop := f.t0 + (gridIdx f.t0 f.dt f.iw.length o.stop : Int) * f.dt
-    if ce < iwStop then ce else o.stop
+    let iwStop := f.t0 + (gridIdx f.t0 f.dt f.iw.length stop : Int) * f.dt
+    if ce < iwStop then ce else stop
 
 /-- default image factory -/
 def defaultImage (f : File) (o : Obj) (c : Color) : Obj × Ans :=
   match photonAccess f o c with
   | .error e => (o, .err e)
-  | .ok (o', cw) => (o', .at (.image c) o'.start (confocalStop f o' cw))
+  | .ok (o', cw) => (o', .at (.image c) o'.start (confocalStop f o'.stop cw))
 
 /-- default timestamp factory: the first colour with a non-empty photon slice -/
 def defaultTs (f : File) (o : Obj) (r : Red) : List Color → Obj × Ans
@@ -295,7 +295,7 @@ def defaultTs (f : File) (o : Obj) (r : Red) : List Color → Obj × Ans
     match photonAccess f o c with
     | .error e => (o, .err e)
     | .ok (o', none) => defaultTs f o' r cs
-    | .ok (o', some cw) => (o', .at (.ts r) o'.start (confocalStop f o' (some cw)))
+    | .ok (o', some cw) => (o', .at (.ts r) o'.start (confocalStop f o'.stop (some cw)))
 
 def allColors : List Color := [.red, .green, .blue]
 
@@ -371,29 +371,33 @@ def numFrames (h : Heap) (i : Nat) : Heap × Ans :=
     | some v => (h, v)
     | none => let v := Ans.frames o.start o.stop; (setObj h i { o with frames := some v }, v)
 
+/-- two memoised calls in a row; an exception of the first ends the query -/
+def seq2 (m1 m2 : Heap → Heap × Ans) (h : Heap) : Heap × Ans :=
+  if (m1 h).2.isErr then m1 h
+  else ((m2 (m1 h).1).1, if (m2 (m1 h).1).2.isErr then (m2 (m1 h).1).2 else .pair (m1 h).2 (m2 (m1 h).1).2)
+
+/-- `line_timestamp_ranges()` / `frame_timestamp_ranges()`: minimum, then maximum timestamps -/
+def minMax (f : File) (i : Nat) : Heap → Heap × Ans :=
+  seq2 (fun h => evalTop f h i (.ts .min)) (fun h => evalTop f h i (.ts .max))
+
+def queryLive (f : File) (h : Heap) (i : Nat) (o : Obj) : Query → Heap × Ans
+  | .static k => (h, .static o.path k)
+  | .start => (h, .int o.start)
+  | .stop => (h, .int o.stop)
+  | .infowave => (h, .iw o.start o.stop)
+  | .prim p => evalTop f h i p
+  | .lineRanges => minMax f i h
+  | .shape => if f.isScan then numFrames h i else evalTop f h i (.image .red)
+  | .duration => seq2 (fun h => evalTop f h i .lineTime) (fun h => evalTop f h i (.image .red)) h
+  | .numFrames => numFrames h i
+
 def query (f : File) (h : Heap) (i : Nat) (q : Query) : Heap × Ans :=
   match h[i]? with
   | none => (h, .dead)
   | some o =>
     if !o.alive then (h, .dead)
     else if f.pure then (h, .static o.path (match q with | .static k => k | _ => 0))
-    else match q with
-      | .static k => (h, .static o.path k)
-      | .start => (h, .int o.start)
-      | .stop => (h, .int o.stop)
-      | .infowave => (h, .iw o.start o.stop)
-      | .prim p => evalTop f h i p
-      | .lineRanges =>
-        let (h1, a) := evalTop f h i (.ts .min)
-        if a.isErr then (h1, a)
-        else let (h2, b) := evalTop f h1 i (.ts .max); (h2, if b.isErr then b else .pair a b)
-      | .shape =>
-        if f.isScan then numFrames h i else evalTop f h i (.image .red)
-      | .duration =>
-        let (h1, a) := evalTop f h i .lineTime
-        if a.isErr then (h1, a)
-        else let (h2, b) := evalTop f h1 i (.image .red); (h2, if b.isErr then b else .pair a b)
-      | .numFrames => numFrames h i
+    else queryLive f h i o q
 
 /-! ### derivations -/
 
@@ -434,59 +438,58 @@ def Ans.windowOf : Ans → Option (Int × Int)
   | .at _ s e => some (s, e)
   | _ => none
 
+def push (h : Heap) (o : Obj) (a : Ans) : Heap × Ans := (h ++ [o], a)
+
+def viewObj (o : Obj) (i x : Nat) (m : Mode) : Obj :=
+  { copyObj o x with chain := i :: o.chain, mode := m, xf := x }
+
+def scanViewObj (o : Obj) (i x : Nat) : Obj :=
+  { viewObj o i x .scanView with frames := some (.static (o.path ++ [x]) 2) }
+
+/-- second half of `Kymo.__getitem__`: `r` = the (min, max) timestamp answers, `o` = the object as it was when
+    `item.start/stop` defaulted to `self.start/stop` (before the line ranges were computed) -/
+def sliceFinish (f : File) (h2 : Heap) (i x : Nat) (a b : Option Int) (o : Obj) (r : Ans) : Heap × Ans :=
+  match r, h2[i]? with
+  | .pair v _, some o2 =>
+    match v.windowOf with
+    | some (s, e) =>
+      if lineRangesOf f.P f.dt (pixelSpans (window f s e)) = [] then push h2 deadObj (.err .index)
+      else match sliceBounds (lineRangesOf f.P f.dt (pixelSpans (window f s e))) (a.getD o.start) (b.getD o.stop)
+          o2.stop with
+        | none => push h2 deadObj (.static (o.path ++ [x]) 1)
+        | some (s', e') =>
+          push h2 { copyObj o2 x with start := s', stop := e', frames := none } (.pair (.int s') (.int e'))
+    | none => push h2 deadObj .dead
+  | r, _ => push h2 deadObj r
+
+/-- second half of `Scan.__getitem__`: the new scan asks for its frame ranges (the timestamp factories are closures
+    over the parent, so the parent's memo tables are read and filled; the entries the new object memoises for itself
+    are always what the parent's table returns, because a scan never replaces its cache) -/
+def scanViewFinish (h2 : Heap) (i x : Nat) (o : Obj) (r : Ans) : Heap × Ans :=
+  match r with
+  | .pair v w => push h2 (scanViewObj o i x) (.pair (.app x v) (.app x w))
+  | r => push h2 deadObj (.app x r)
+
+def deriveLive (f : File) (h : Heap) (i : Nat) (x : Nat) (o : Obj) : Derive → Heap × Ans
+  | .placeholder => push h deadObj .dead
+  | .pureDerive => push h (copyObj o x) (.static (o.path ++ [x]) 0)
+  | .copy => push h (copyObj o x) (.static (o.path ++ [x]) 0)
+  | .view m => push h (viewObj o i x m) (.static (o.path ++ [x]) 0)
+  | .slice a b =>
+    if o.mode ≠ .root then push h deadObj (.err .notImpl)
+    else sliceFinish f (minMax f i h).1 i x a b o (minMax f i h).2
+  | .scanFail e => push (numFrames h i).1 deadObj (.err e)
+  | .scanEmpty => push (numFrames h i).1 deadObj (.static (o.path ++ [x]) 1)
+  | .scanCrop => push (numFrames h i).1 (scanViewObj o i x) (.static (o.path ++ [x]) 0)
+  | .scanView =>
+    -- reads `self.num_frames` (memoised in the parent's metadata), builds the view, then asks the new object
+    -- for its frame ranges
+    scanViewFinish (minMax f i (numFrames h i).1).1 i x o (minMax f i (numFrames h i).1).2
+
 def derive (f : File) (h : Heap) (i : Nat) (x : Nat) (d : Derive) : Heap × Ans :=
   match h[i]? with
-  | none => (h ++ [deadObj], .dead)
-  | some o =>
-    if !o.alive then (h ++ [deadObj], .dead)
-    else match d with
-      | .placeholder => (h ++ [deadObj], .dead)
-      | .pureDerive => (h ++ [copyObj o x], .static (o.path ++ [x]) 0)
-      | .copy => (h ++ [copyObj o x], .static (o.path ++ [x]) 0)
-      | .view m => (h ++ [{ copyObj o x with chain := i :: o.chain, mode := m, xf := x }], .static (o.path ++ [x]) 0)
-      | .slice a b =>
-        if o.mode ≠ .root then (h ++ [deadObj], .err .notImpl)
-        else
-          let a' := a.getD o.start
-          let b' := b.getD o.stop
-          let (h1, v) := evalTop f h i (.ts .min)
-          if v.isErr then (h1 ++ [deadObj], v)
-          else
-            let (h2, w) := evalTop f h1 i (.ts .max)
-            if w.isErr then (h2 ++ [deadObj], w)
-            else match h2[i]?, v.windowOf with
-              | some o2, some (s, e) =>
-                let ranges := lineRangesOf f.P f.dt (pixelSpans (window f s e))
-                if ranges = [] then (h2 ++ [deadObj], .err .index)
-                else match sliceBounds ranges a' b' o2.stop with
-                  | none => (h2 ++ [deadObj], .static (o.path ++ [x]) 1)
-                  | some (s', e') =>
-                    (h2 ++ [{ copyObj o2 x with start := s', stop := e', frames := none }], .pair (.int s') (.int e'))
-              | _, _ => (h2 ++ [deadObj], .dead)
-      | .scanFail e => ((numFrames h i).1 ++ [deadObj], .err e)
-      | .scanEmpty => ((numFrames h i).1 ++ [deadObj], .static (o.path ++ [x]) 1)
-      | .scanCrop =>
-        let (h0, _) := numFrames h i
-        match h0[i]? with
-        | none => (h0 ++ [deadObj], .dead)
-        | some o0 =>
-          (h0 ++ [{ copyObj o0 x with chain := i :: o0.chain, mode := .scanView, xf := x, frames := some (.static (o.path ++ [x]) 2) }],
-            .static (o.path ++ [x]) 0)
-      | .scanView =>
-        -- reads `self.num_frames` (memoised in the parent's metadata), builds the view, then asks the
-        -- NEW object for its frame ranges (min and max timestamps -> the parent's)
-        let (h0, _) := numFrames h i
-        match h0[i]? with
-        | none => (h0 ++ [deadObj], .dead)
-        | some o0 =>
-          let j := h0.length
-          let h1 := h0 ++ [{ copyObj o0 x with chain := i :: o0.chain, mode := .scanView, xf := x, frames := some (.static (o.path ++ [x]) 2) }]
-          let (h2, v) := evalTop f h1 j (.ts .min)
-          if v.isErr then (setObj h2 j deadObj, v)
-          else
-            let (h3, w) := evalTop f h2 j (.ts .max)
-            if w.isErr then (setObj h3 j deadObj, w)
-            else (h3, .pair v w)
+  | none => push h deadObj .dead
+  | some o => if !o.alive then push h deadObj .dead else deriveLive f h i x o d
 
 /-! ### histories -/
 
